@@ -726,7 +726,7 @@ func ruleAtomicFields(c *Ctx) {
 			}
 		}
 	}
-	c.Floor("X.atomic", 4)
+	c.Floor("X.atomic", 2)
 	// copy-on-write
 	for _, f := range funcs {
 		name := ssaFuncName(f)
